@@ -1,5 +1,6 @@
 """C14 — Planning and previewing are read-only and deterministic."""
 import json
+import time
 
 import core
 import cli
@@ -73,6 +74,30 @@ def run(R):
             if rc != 0 or not extra <= allowed:
                 fails.append({"why": "plan wrote something other than .renamify/plan.json", "changed": sorted(extra)[:6],
                               "tree": cli.tree_json(tree), "search": search})
+        # the same commands in a workspace that already holds renamify state: history, a pending plan and a lock file
+        # left behind by a killed run (orphaned: dead pid; stale: an hour old) - nothing of it may change either
+        for lock_kind in (("orphaned", "stale") if not quick else (("orphaned",) if i % 2 else ("stale",))):
+            with cli.Sandbox(tree) as sb:
+                sb.run(["--no-auto-init", "-y", "rename", "zz_" + search, "zz_" + replace])
+                sb.run(["--no-auto-init", "plan", search, replace, "--quiet"])
+                (sb.root / ".renamify").mkdir(exist_ok=True)
+                now = int(time.time())
+                (sb.root / ".renamify" / "renamify.lock").write_text(f"999999:{now if lock_kind == 'orphaned' else now - 3600}")
+                before = sb.snapshot(state=True)
+                for args, label in [(["plan", search, replace, "--dry-run", "--quiet"], "plan --dry-run"), (["search", search, "--quiet"], "search"),
+                                    (["rename", search, replace, "--dry-run", "--quiet"], "rename --dry-run"),
+                                    (["rename", search, replace, "--dry-run", "--output", "json"], "rename --dry-run --output json"),
+                                    (["replace", "--no-regex", search, replace, "--dry-run", "--quiet"], "replace --dry-run")]:
+                    rc, o, e = sb.run(["--no-auto-init", "-y"] + args)
+                    after = sb.snapshot(state=True)
+                    stats["readonly_runs"] += 1
+                    stats["with_prior_state"] = stats.get("with_prior_state", 0) + 1
+                    R.case(("ro-state", i, lock_kind, label), nontrivial=True)
+                    if after != before:
+                        fails.append({"why": f"{label} changed a workspace holding renamify state and a {lock_kind} lock file",
+                                      "diff": repr(cli.diff_snap(before, after))[:800], "tree": cli.tree_json(tree), "search": search,
+                                      "replace": replace, "lock_kind": lock_kind})
+                        break
         # auto-init: only the documented ignore-file line
         if i % 3 == 0:
             with cli.Sandbox(tree + [{"p": ".gitignore", "k": "f", "c": b"target/\n", "m": 0o644}]) as sb:
